@@ -195,8 +195,13 @@ func H_API_PolyPoly(p []int) {
 		}
 		return &IndexOptions{Kind: vKind(k), MinPoints: 1}
 	}
-	A := NewPoly(vClose(a), nil, mk(kind%3))
-	B := NewPoly(vClose(b), nil, mk(kind/3))
+	encA, encB := vClose(a), vClose(b)
+	if kind >= 9 { // the rings given WITHOUT their repeated closing vertex
+		kind -= 9
+		encA, encB = a, b
+	}
+	A := NewPoly(encA, nil, mk(kind%3))
+	B := NewPoly(encB, nil, mk(kind/3))
 	meet := sRegionsMeet(a, b)
 	vAssert(A.IntersectsPoly(B) == meet, "C02.api-poly-intersects-poly")
 	vAssert(B.IntersectsPoly(A) == meet, "C02.api-poly-intersects-poly-swapped")
@@ -338,6 +343,12 @@ func H_API_RectLine(p []int) {
 	vAssert(r.IntersectsLine(line) == sLineMeetsPoly(rv, nil, lp), "C02.api-rect-intersects-line")
 	vAssert(line.IntersectsRect(r) == sLineMeetsPoly(rv, nil, lp), "C02.api-line-intersects-rect")
 	vAssert(r.ContainsLine(line) == sLineInPoly(rv, nil, lp), "C03.api-rect-contains-line")
+	if w == 0 || h == 0 {
+		// a flat rectangle is the segment between its corners: a line contains it iff it covers that segment
+		vAssert(line.ContainsRect(r) == sLineCoversSeg(lp, r.Min, r.Max), "C03.api-line-contains-flat-rect")
+	} else {
+		vAssert(!line.ContainsRect(r), "C03.api-line-contains-rect-with-area")
+	}
 	vCover("api.rectline")
 }
 
